@@ -228,11 +228,12 @@ def sm_families(prop):
         {"name": "v5_steps", "filters": ["sm::v5::in_puback_m2", "sm::v5::in_puback_failure_m2", "sm::v5::in_pubrec_failure_m2",
                                          "sm::v5::in_pubcomp_m2", "sm::v5::out_publish_m2", "sm::v5::in_pubrec_m2",
                                          "sm::v5::in_publish_m2", "sm::v5::in_pubrel_m2", "sm::v5::out_subscribe_m2",
-                                         "sm::v5::out_ping_m2", "sm::v5::in_misc_m2", "sm::v5::in_connack_"],
+                                         "sm::v5::out_ping_m2", "sm::v5::in_misc_m2", "sm::v5::in_connack_",
+                                         "sm::v5::out_publish_m1", "sm::v5::in_puback_m1", "sm::v5::in_pubrec_m1", "sm::v5::in_pubcomp_m1"],
          "tier": "thorough", "timeout": 2400, "jobs": 1, "mem_gb": 46, "min_harnesses": 4, "playback": False,
          "kind": "I (inductive steps of the MQTT 5 client state machine; shared by C02/C07/C10 - every clause asserted, one at a time "
                  "with up to 46 GB: each needs 3-15 min)",
-         "bounds": "max_inflight 2; arbitrary INV state as for the 3.1.1 client; outgoing publish / subscribe / ping; incoming PUBACK "
+         "bounds": "max_inflight 2 (and max_inflight 1 for outgoing publish, PUBACK, PUBREC, PUBCOMP); arbitrary INV state as for the 3.1.1 client; outgoing publish / subscribe / ping; incoming PUBACK "
                    "with success and with a failure reason, PUBREC with success and with a failure reason, PUBCOMP (success), "
                    "PUBLISH (QoS 0/1/2, no properties), PUBREL, PINGRESP, CONNACK with a symbolic receive-maximum / "
                    "topic-alias-maximum and without properties; broker ids symbolic over {0..=3, 0xFFFF}; no topic alias",
@@ -244,7 +245,7 @@ def sm_families(prop):
                      "save_pubrel, next_pkid, check_collision}"],
          "stubs": SM_STUBS + ["std::hash::RandomState::new -> fixed keys (the topic-alias HashMap stays empty)"],
          "assumes": [SM_INV],
-         "outside": ["max_inflight 1 and 3 instances and clean()/replay for MQTT 5 (written in sm/v5.rs, not run)", "topic aliases, "
+         "outside": ["max_inflight 3 instances and clean()/replay for MQTT 5 (written in sm/v5.rs, not run)", "topic aliases, "
                      "states whose negotiated window is already below the configured limit, SUBACK/UNSUBACK/DISCONNECT/AUTH"]},
         {"name": "bitset_sizes", "filters": ["sm::v4::bitset_sizes"], "tier": "quick", "timeout": 300, "jobs": 6,
          "kind": "stub contract witness", "bounds": "max_inflight = 3",
